@@ -64,82 +64,15 @@ theorem C29_interval_ok (dur : Int) (h1 : 0 < dur) (h2 : dur < 9223372036854) :
 
 /-! ### the handlers: exactly which request shapes crash -/
 
-/-- A request crashes the server iff it is not `safe` — for every state, token and request. -/
+/-- A request crashes the server iff it is not `safe` — for every state, token and request.
+    `safe` = the dispatcher answers itself (no handler, stub, nil-checked session lookup that fails:
+    all read from the regenerated table) or the handler body cannot panic on this shape. -/
 theorem C29_crash_iff (st : St) (t : Tok) (r : Req) :
     (step st t r).2.isCrash = !safe st t r := by
-  cases r with
-  | findServers => cases h : st.endpointsEmpty <;> simp [step, Req.name, handlerOf_findServers, body, safe, h, Out.isCrash]
-  | getEndpoints => simp [step, Req.name, handlerOf_getEndpoints, body, safe, Out.isCrash]
-  | createSession k s c =>
-    cases s <;> cases c <;> cases hn : Gen.SrvSession.newSessionSignatureChecked <;>
-      simp [step, Req.name, handlerOf_createSession, body, safe, Out.isCrash, hn]
-  | activateSession s ok =>
-    simp only [step, Req.name, handlerOf_activateSession, safe]
-    cases hf : findSession st t with
-    | none => simp [Out.isCrash]
-    | some x =>
-      obtain ⟨xt, xa, xq, xr⟩ := x
-      cases s <;> cases ok <;> cases xr <;> cases hv : Gen.SrvSession.verifySessionSignatureChecked <;>
-        simp [body, hf, Out.isCrash, hv]
-  | closeSession => simp [step, Req.name, handlerOf_closeSession, body, safe, Out.isCrash]
-  | read => cases h : st.accessAttr <;> simp [step, Req.name, handlerOf_read, body, safe, accessCheck, h, Out.isCrash]
-  | write v => cases h : st.accessAttr <;> simp [step, Req.name, handlerOf_write, body, safe, accessCheck, h, Out.isCrash]
-  | writeAttr w a =>
-    cases h : st.accessAttr <;> simp [step, Req.name, handlerOf_write, body, safe, accessCheck, h, Out.isCrash] <;>
-      (by_cases hw : w = "DataType" <;> simp [hw])
-  | browse c b =>
-    cases c <;> cases b <;> cases h : st.dataTypeAttr <;>
-      simp [step, Req.name, handlerOf_browse, body, safe, h, Out.isCrash]
-  | createSubscription iv =>
-    cases iv <;> cases hf : findSession st t <;>
-      simp [step, Req.name, handlerOf_createSubscription, body, safe, sessionKnown, hf, Out.isCrash]
-  | publish =>
-    cases hf : findSession st t <;> simp [step, Req.name, handlerOf_publish, body, safe, hf, Out.isCrash]
-  | deleteSubscriptions ids =>
-    have h := delSubsLoop_isErr st (findSession st t) ids
-    simp only [step, Req.name, handlerOf_deleteSubscriptions, body, safe, sessionKnown]
-    cases hl : delSubsLoop st (findSession st t) ids with
-    | error e => rw [hl] at h; simp [isErr] at h; simp [Out.isCrash, h]
-    | ok p => rw [hl] at h; obtain ⟨a, b⟩ := p; simp [isErr] at h; simpa [Out.isCrash] using h
-  | createMonitoredItems s n =>
-    simp only [step, Req.name, handlerOf_createMonitoredItems, body, safe, sessionKnown, subOwned]
-    cases hs : findSub st s with
-    | none => simp [Out.isCrash]
-    | some sub =>
-      obtain ⟨sid, owner⟩ := sub
-      cases owner with
-      | none => simp [Out.isCrash]
-      | some o =>
-        cases hf : findSession st t with
-        | none => simp [Out.isCrash]
-        | some c => by_cases hc : o = c.token <;> simp [Out.isCrash, hc]
-  | setMonitoringMode ids =>
-    have h := itemLoop_isErr st (findSession st t) "MonitoredItemService.SetMonitoringMode"
-      Gen.SrvSession.setModeUnknownContinues Gen.SrvSession.setModeMismatchContinues ids
-    simp only [step, Req.name, handlerOf_setMonitoringMode, body, safe, itemSafe, sessionKnown]
-    cases hl : itemLoop st (findSession st t) "MonitoredItemService.SetMonitoringMode"
-        Gen.SrvSession.setModeUnknownContinues Gen.SrvSession.setModeMismatchContinues ids with
-    | error e => rw [hl] at h; exact h
-    | ok p => rw [hl] at h; exact h
-  | deleteMonitoredItems ids =>
-    have h := itemLoop_isErr st (findSession st t) "MonitoredItemService.DeleteMonitoredItems"
-      Gen.SrvSession.delItemsUnknownContinues Gen.SrvSession.delItemsMismatchContinues ids
-    simp only [step, Req.name, handlerOf_deleteMonitoredItems, body, safe, itemSafe, sessionKnown]
-    cases hl : itemLoop st (findSession st t) "MonitoredItemService.DeleteMonitoredItems"
-        Gen.SrvSession.delItemsUnknownContinues Gen.SrvSession.delItemsMismatchContinues ids with
-    | error e => rw [hl] at h; exact h
-    | ok p => rw [hl] at h; exact h
-  | other n =>
-    simp only [step, Req.name, safe]
-    cases handlerOf n with
-    | none => simp [unsupportedFault, Out.isCrash]
-    | some h =>
-      by_cases hu : h.unsupported = true
-      · simp [hu, unsupportedFault, Out.isCrash]
-      · simp only [hu]
-        split
-        · simp [unsupportedFault, Out.isCrash]
-        · split <;> simp [body, unsupportedFault, Out.isCrash]
+  unfold safe
+  cases hp : preempted st t r with
+  | true => simp [step_preempted st t r hp]
+  | false => rw [step_not_preempted st t r hp, body_crash_iff]; simp
 
 /-- C29 for the handlers, on the part of the input space where it holds. -/
 theorem C29_nopanic_partial (st : St) (t : Tok) (r : Req) (g : safe st t r = true) :
@@ -186,14 +119,19 @@ theorem C29_sequence_partial (st : St) (l : List (Tok × Req))
 theorem C29_sig_cover (st : St) (t : Tok) (r : Req) (h : (step st t r).2.isCrash = true) :
     sig29 st t r ≠ "C29.unclassified" := by
   rw [C29_crash_iff] at h
-  cases r <;> simp [safe] at h <;> simp [sig29] <;> (try split) <;> simp
+  unfold safe at h
+  have hb : safeBody st t r = false := by
+    cases hs : safeBody st t r with
+    | false => rfl
+    | true => simp [hs] at h
+  cases r <;> simp [safeBody] at hb <;> simp [sig29] <;> (try split) <;> simp
 
 /-! ### counterexamples: one per finding -/
 
 /-- session 1 created and activated, session 2 created and activated, subscription 1 (item 1) owned
-    by session 1, subscription 2 created without a session -/
+    by session 1, subscription 2 owned by session 2 -/
 def st2 : St :=
-  { sessions := [⟨1, true, 0, true⟩, ⟨2, true, 0, true⟩], subs := [⟨1, some 1⟩, ⟨2, none⟩], items := [⟨1, 1⟩], nextItem := 1, lastSub := 2, value := 5 }
+  { sessions := [⟨1, true, 0, true⟩, ⟨2, true, 0, true⟩], subs := [⟨1, some 1⟩, ⟨2, some 2⟩], items := [⟨1, 1⟩], nextItem := 1, lastSub := 2, value := 5 }
 
 theorem C29_finding_findservers :
     step { st2 with endpointsEmpty := true } 0 .findServers = ({ st2 with endpointsEmpty := true }, .crash "DiscoveryService.FindServers") ∧
@@ -214,34 +152,93 @@ theorem C29_finding_createsubscription_interval :
     (step st2 1 (.createSubscription .subMs)).2 = .crash "Subscription.run" ∧
     sig29 st2 1 (.createSubscription .subMs) = "C29.createsubscription-nonpositive-interval" := by decide
 
-/-- a subscription created without a session dereferences the nil session at its first keep-alive tick -/
-theorem C29_finding_createsubscription_nil_session :
-    (step st2 0 (.createSubscription .small)).2 = .crash "Subscription.run" ∧
-    (step st2 1 (.createSubscription .small)).2 = .ok "" ∧
-    sig29 st2 0 (.createSubscription .small) = "C29.createsubscription-nil-session-tick" := by decide
+/-! ### repaired: the nil-session call sites (were findings C29.createsubscription-nil-session-tick,
+    C29.deletesubscriptions-nil-session, C29.createmonitoreditems-nil-session,
+    C29.setmonitoringmode-nil-session, C29.deletemonitoreditems-nil-session) -/
+
+/-- A request of the subscription / monitored-item services whose token is not in the session table
+    never reaches a handler body: it is answered with a session fault, nothing changes, nothing is
+    dereferenced — for every state, id list, subscription id, item count and interval. -/
+theorem C29_repaired_nil_session (st : St) (t : Tok) (h : findSession st t = none)
+    (iv : Interval) (ids : List Nat) (sub n : Nat) :
+    step st t (.createSubscription iv) = (st, .sessionErr) ∧
+    step st t (.deleteSubscriptions ids) = (st, .sessionErr) ∧
+    step st t (.createMonitoredItems sub n) = (st, .sessionErr) ∧
+    step st t (.setMonitoringMode ids) = (st, .sessionErr) ∧
+    step st t (.deleteMonitoredItems ids) = (st, .sessionErr) := by
+  refine ⟨?_, ?_, ?_, ?_, ?_⟩ <;>
+    simp [step, Req.name, handlerOf_createSubscription, handlerOf_deleteSubscriptions,
+      handlerOf_createMonitoredItems, handlerOf_setMonitoringMode, handlerOf_deleteMonitoredItems, h]
+
+/-- Every subscription has an owning session (`ownersSet`) and no request can create one without: subscriptions with a nil session pointer (the other
+    half of the old crashes: an activated session touching such a subscription) are unreachable. -/
+theorem C29_owners_invariant (st : St) (t : Tok) (r : Req) (h : ownersSet st = true) :
+    ownersSet (step st t r).1 = true := by
+  cases hp : preempted st t r with
+  | true =>
+    have : (step st t r).1 = st := by
+      unfold preempted at hp
+      unfold step
+      cases hh : handlerOf r.name with
+      | none => rfl
+      | some x =>
+        simp only [hh] at hp
+        by_cases hu : x.unsupported = true
+        · simp [hu]
+        · simp only [hu, Bool.false_or, Bool.false_eq_true, if_false] at hp ⊢
+          simp [hp]
+    rw [this]; exact h
+  | false =>
+    rw [step_not_preempted st t r hp]
+    cases r with
+    | createSubscription iv =>
+      -- not pre-empted and the table row says nil-checked: the session exists
+      have hk : (findSession st t).isSome = true := by
+        unfold preempted at hp
+        simp only [Req.name, handlerOf_createSubscription] at hp
+        cases hf : findSession st t <;> simp [hf] at hp ⊢
+      obtain ⟨x, hx⟩ := Option.isSome_iff_exists.mp hk
+      cases iv <;> simp only [body, hx, Option.map_some] <;> (repeat' split) <;> exact putSub_owners _ _ _ h
+    | deleteSubscriptions ids =>
+      simp only [body]
+      split
+      · exact h
+      · unfold ownersSet at *
+        exact List.all_eq_true.mpr fun s hs => List.all_eq_true.mp h s (List.mem_filter.mp hs).1
+    | createMonitoredItems s n => simp only [body]; (repeat' split) <;> exact h
+    | setMonitoringMode ids => simp only [body]; split <;> exact h
+    | deleteMonitoredItems ids => simp only [body]; split <;> exact h
+    | findServers => simp only [body]; split <;> exact h
+    | getEndpoints => exact h
+    | createSession k s c => cases s <;> cases c <;> simp only [body] <;> (repeat' split) <;> exact h
+    | activateSession s ok => simp only [body]; (repeat' split) <;> exact h
+    | closeSession => exact h
+    | read => simp only [body]; split <;> exact h
+    | write v => simp only [body]; split <;> exact h
+    | writeAttr w a => simp only [body]; (repeat' split) <;> exact h
+    | browse c b => simp only [body]; (repeat' split) <;> exact h
+    | publish => simp only [body]; split <;> exact h
+    | other n => exact h
 
 theorem C29_finding_deletesubscriptions :
-    (step st2 0 (.deleteSubscriptions [1])).2 = .crash "SubscriptionService.DeleteSubscriptions" ∧   -- caller without session
-    (step st2 1 (.deleteSubscriptions [2])).2 = .crash "SubscriptionService.DeleteSubscriptions" ∧   -- valid caller, owner nil
-    (step st2 1 (.deleteSubscriptions [7, 1])).2 = .ok "BadSubscriptionIDInvalid,Good" := by decide
+    step st2 0 (.deleteSubscriptions [1]) = (st2, .sessionErr) ∧
+    (step st2 1 (.deleteSubscriptions [7, 1])).2 = .ok "BadSubscriptionIDInvalid,Good" ∧
+    (step st2 2 (.deleteSubscriptions [1])).2 = .ok "BadSessionIDInvalid" := by decide
 
 theorem C29_finding_createmonitoreditems :
-    (step st2 0 (.createMonitoredItems 1 1)).2 = .crash "MonitoredItemService.CreateMonitoredItems" ∧
-    (step st2 1 (.createMonitoredItems 2 1)).2 = .crash "MonitoredItemService.CreateMonitoredItems" ∧
-    (step st2 2 (.createMonitoredItems 1 1)).2 = .fault "BadUnexpectedError" := by decide
+    step st2 0 (.createMonitoredItems 1 1) = (st2, .sessionErr) ∧
+    (step st2 2 (.createMonitoredItems 1 1)).2 = .fault "BadUnexpectedError" ∧
+    (step st2 1 (.createMonitoredItems 1 2)).2 = .ok "Good,Good" := by decide
 
-/-- SetMonitoringMode / DeleteMonitoredItems for an existing item without a session dereference the nil
-    session.  An unknown id no longer does (the lookup is checked first — repaired together with C32;
-    it used to be findings C29.setmonitoringmode-unknown-id / C29.deletemonitoreditems-unknown-id). -/
+/-- SetMonitoringMode / DeleteMonitoredItems: unknown ids and foreign items are answered per id
+    (repaired with C32), a missing session is a session fault (this repair). -/
 theorem C29_finding_setmonitoringmode :
-    (step st2 0 (.setMonitoringMode [1])).2 = .crash "MonitoredItemService.SetMonitoringMode" ∧
-    sig29 st2 0 (.setMonitoringMode [1]) = "C29.setmonitoringmode-nil-session" ∧
+    step st2 0 (.setMonitoringMode [1]) = (st2, .sessionErr) ∧
     (step st2 1 (.setMonitoringMode [9, 1])).2 = .ok "BadMonitoredItemIDInvalid,Good" ∧
     (step st2 2 (.setMonitoringMode [1])).2 = .ok "BadSessionIDInvalid" := by decide
 
 theorem C29_finding_deletemonitoreditems :
-    (step st2 0 (.deleteMonitoredItems [1])).2 = .crash "MonitoredItemService.DeleteMonitoredItems" ∧
-    sig29 st2 0 (.deleteMonitoredItems [1]) = "C29.deletemonitoreditems-nil-session" ∧
+    step st2 0 (.deleteMonitoredItems [1]) = (st2, .sessionErr) ∧
     step st2 1 (.deleteMonitoredItems [9]) = (st2, .ok "BadMonitoredItemIDInvalid") ∧
     step st2 2 (.deleteMonitoredItems [1]) = (st2, .ok "BadSessionIDInvalid") ∧
     step st2 1 (.deleteMonitoredItems [1]) = ({ st2 with items := [] }, .ok "Good") := by decide
@@ -264,8 +261,8 @@ theorem C29_finding_browse_datatype :
 /-- the property at full strength does not hold for the handlers as they are -/
 theorem C29_nopanic_false : ¬ ∀ st t r, (step st t r).2.isCrash = false := by
   intro h
-  have := h st2 0 (.setMonitoringMode [1])
-  rw [C29_finding_setmonitoringmode.1] at this
+  have := h st2 0 (.createSession 3 true .nonRsa)
+  rw [C29_finding_createsession_nonrsa.1] at this
   exact absurd this (by decide)
 
 /-! ### hang: one client that does not read -/
@@ -305,7 +302,7 @@ theorem C29_signed_chunk_safe (chunkLen sigLen : Nat) : signedChunkOutcome chunk
 
 /-! ### non-vacuity -/
 
-example : safe st2 1 (.deleteSubscriptions [1, 7]) = true ∧ safe st2 0 .read = true ∧ safe st2 1 (.setMonitoringMode [1]) = true := by decide
-example : (runSteps st2 [(0, .read), (0, .setMonitoringMode [1]), (0, .read)]).2 = .crash "MonitoredItemService.SetMonitoringMode" := by decide
+example : safe st2 1 (.deleteSubscriptions [1, 7]) = true ∧ safe st2 0 .read = true ∧ safe st2 0 (.setMonitoringMode [1]) = true := by decide
+example : (runSteps st2 [(0, .read), (1, .createSubscription .subMs), (0, .read)]).2 = .crash "Subscription.run" := by decide
 
 end Opcua.Props.C29
